@@ -162,43 +162,55 @@ def run(prog, rep, tier, repo):
             n['mv'] += 1
             inner = 'dot' if name in ('dot', 'dot_t') else 't_dot'
             # to_vec(<inner>(self, o)) with o = to_matrix(owned copy of other), and t_mut(o) called before
-            ok, why = False, ''
+            ok, why, unread = False, '', ''
             if len(rets) == 1 and tag(rets[0]) == 'call' and rets[0][1] == M + '::to_vec':
                 c0 = rets[0][2][0]
                 if tag(c0) == 'call' and 'Dot<' in c0[1] and short(c0[1]) == inner and c0[2][0] == me_:
                     o = c0[2][1]
-                    if tag(o) == 'call' and o[1] == V + '::to_matrix' and _strip_copies(o[2][0]) == other:
-                        tm = [c for c in f.calls() if c.path == M + '::t_mut' and c.args[0] == o]
-                        prod = [c for c in f.calls() if c.path == c0[1]]
-                        if len(tm) == 1 and prod and f.cfg.dominates(tm[0].bb, prod[0].bb):
-                            ok = True
-                        else:
-                            why = 'the promoted vector is not transposed into a column before the product'
+                    prod = [c for c in f.calls() if c.path == c0[1]]
+                    ori = _orientation(prog, f, o, prod[0].bb if prod else None)
+                    if ori is None:
+                        unread = 'how the vector operand %s is promoted to a matrix is not read' % show(o)[:60]
+                    elif ori == ('col', other):
+                        ok = True
+                    elif ori[1] != other:
+                        why = 'right operand is a promotion of %s, not of `other`' % show(ori[1])[:40]
                     else:
-                        why = 'right operand is not other.to_matrix()'
+                        why = 'the promoted vector is not transposed into a column before the product'
                 else:
                     why = 'inner product is %s, expected self.%s(column)' % (show(c0)[:60], inner)
             else:
                 why = 'result is not <product>.to_vec()'
-            (rep.ok if ok else rep.viol)('dot', key, '%s: vector promoted to a column (to_matrix + t_mut), self.%s(col).to_vec()' % (name, inner) if ok else '%s: %s' % (name, why), site_of(b))
+            if not ok and unread:
+                rep.undecided('dot', key, '%s: %s' % (name, unread), site_of(b), proof=False)
+            else:
+                (rep.ok if ok else rep.viol)('dot', key, '%s: vector promoted to a column (to_matrix + t_mut), self.%s(col).to_vec()' % (name, inner) if ok else '%s: %s' % (name, why), site_of(b))
         elif not s_mat and o_mat:
             n['vm'] += 1
             inner = 'dot' if name in ('dot', 't_dot') else 'dot_t'
-            ok, why = False, ''
+            ok, why, unread = False, '', ''
             if len(rets) == 1 and tag(rets[0]) == 'call' and rets[0][1] == M + '::to_vec':
                 c0 = rets[0][2][0]
                 if tag(c0) == 'call' and 'Dot<' in c0[1] and short(c0[1]) == inner and c0[2][1] == other:
                     o = c0[2][0]
-                    if tag(o) == 'call' and o[1] == V + '::to_matrix' and _strip_copies(o[2][0]) == me_ and \
-                            not [c for c in f.calls() if c.path == M + '::t_mut']:
+                    prod = [c for c in f.calls() if c.path == c0[1]]
+                    ori = _orientation(prog, f, o, prod[0].bb if prod else None)
+                    if ori is None:
+                        unread = 'how the vector operand %s is promoted to a matrix is not read' % show(o)[:60]
+                    elif ori == ('row', me_):
                         ok = True
+                    elif ori[1] != me_:
+                        why = 'left operand is a promotion of %s, not of `self`' % show(ori[1])[:40]
                     else:
-                        why = 'left operand is not self.to_matrix() (a row)'
+                        why = 'left operand is self promoted to a column, expected a row (self.to_matrix())'
                 else:
                     why = 'inner product is %s, expected row.%s(other)' % (show(c0)[:60], inner)
             else:
                 why = 'result is not <product>.to_vec()'
-            (rep.ok if ok else rep.viol)('dot', key, '%s: vector promoted to a row, row.%s(other).to_vec()' % (name, inner) if ok else '%s: %s' % (name, why), site_of(b))
+            if not ok and unread:
+                rep.undecided('dot', key, '%s: %s' % (name, unread), site_of(b), proof=False)
+            else:
+                (rep.ok if ok else rep.viol)('dot', key, '%s: vector promoted to a row, row.%s(other).to_vec()' % (name, inner) if ok else '%s: %s' % (name, why), site_of(b))
         else:
             n['vv'] += 1
             ok = len(rets) == 1 and tag(rets[0]) == 'call' and rets[0][1] == U + 'dot' and _is_vdata_of(rets[0][2][0], me_) and _is_vdata_of(rets[0][2][1], other)
@@ -207,6 +219,38 @@ def run(prog, rep, tier, repo):
     rep.info('dot', 'dot:counts', 'matrix.matrix %(mm)d, matrix.vector %(mv)d, vector.matrix %(vm)d, vector.vector %(vv)d' % n)
     # t_mut / to_matrix semantics used above are C15's (matrix-invariant, promotion)
     return {}
+
+
+def _orientation(prog, f, t, use_bb, depth=0):
+    """('row'|'col', v) when matrix term t (in body f) is vector v promoted by to_matrix (a 1 x n row) and transposed in place by an
+    even / odd number of t_mut calls that dominate use_bb (None: the return); promotions kept in in-crate helpers are followed.
+    None when the construction is not of this form."""
+    from ..structs import subst
+    if tag(t) != 'call':
+        return None
+    cfg = f.cfg
+    targets = [use_bb] if use_bb is not None else list(cfg.returns)
+    flips = [c for c in f.calls() if c.path == M + '::t_mut' and c.args and c.args[0] == t]
+    for c in flips:
+        if not all(cfg.dominates(c.bb, u) for u in targets):
+            return None           # transposed on some paths only
+    if t[1] == V + '::to_matrix' and t[2]:
+        base = ('row', _strip_copies(t[2][0]))
+    elif t[1] in prog.pdb.bodies and depth < 3:
+        g = prog.func(t[1])
+        rv = g.return_values() if g is not None else []
+        if len(rv) != 1:
+            return None
+        inner = _orientation(prog, g, rv[0], None, depth + 1)
+        if inner is None:
+            return None
+        params = {('arg', i + 1, g.names.get(i + 1)): a for i, a in enumerate(t[2])}
+        base = (inner[0], _strip_copies(subst(inner[1], params)))
+    else:
+        return None
+    if len(flips) % 2:
+        base = ('col' if base[0] == 'row' else 'row', base[1])
+    return base
 
 
 def _is_data_of(t, m):
@@ -222,6 +266,6 @@ def _is_vdata_of(t, v):
 
 
 def _strip_copies(t):
-    while tag(t) == 'call' and short(t[1]) in ('to_owned', 'clone') and t[2]:
+    while tag(t) == 'call' and short(t[1]) in ('to_owned', 'clone', 'deref', 'borrow') and t[2]:
         t = t[2][0]
     return t
